@@ -1,0 +1,141 @@
+// SPDX-FileCopyrightText: 2026 The Pion community <https://pion.ly>
+// SPDX-License-Identifier: MIT
+
+//go:build verif
+
+package ice
+
+import (
+	"net"
+	"net/netip"
+
+	"github.com/pion/ice/v4/internal/verifhook"
+)
+
+// This file exists only with the verif build tag. It gives an external
+// verification harness read access to the state of UDPMuxDefault, of the
+// connections it multiplexes and of the reference-counted handles it hands
+// out, and lets it call the write/abort entry points of the shared socket.
+
+// VerifUDPMuxSetYield installs (or, with nil, removes) the function called at every yield point.
+func VerifUDPMuxSetYield(f func(string)) { verifhook.Set(f) }
+
+// VerifMuxedConn is the per-ufrag connection of a UDPMuxDefault (opaque to the harness).
+type VerifMuxedConn = udpMuxedConn
+
+// VerifMuxQueued is one datagram waiting in a muxed connection's FIFO.
+type VerifMuxQueued struct {
+	Data []byte
+	Src  netip.AddrPort
+	Addr *net.UDPAddr
+}
+
+// VerifMuxWriteState decodes the write-abort state word of the shared socket.
+func VerifMuxWriteState(m *UDPMuxDefault) (count uint64, blocked, armed bool) {
+	st := m.writeState.Load()
+
+	return st & udpMuxWriteCountMask, st&udpMuxWriteBlockedBit != 0, st&udpMuxWriteDeadlineBit != 0
+}
+
+// VerifMuxResetWriteState zeroes the write-abort state word (used by a driver to
+// let goroutines of a broken tree out of their spin loops before it leaves).
+func VerifMuxResetWriteState(m *UDPMuxDefault) { m.writeState.Store(0) }
+
+// VerifMuxWriteTo is the write path every muxed connection uses on the shared socket.
+func VerifMuxWriteTo(m *UDPMuxDefault, buf []byte, addr net.Addr) (int, error) {
+	return m.writeTo(buf, addr)
+}
+
+// VerifMuxAbortWrite is the abort entry point used by a closing agent.
+func VerifMuxAbortWrite(m *UDPMuxDefault) error { return m.abortWrite() }
+
+// VerifMuxListed returns a copy of the ufrag table of one IP family.
+func VerifMuxListed(m *UDPMuxDefault, isIPv6 bool) map[string]*VerifMuxedConn {
+	m.mu.Lock()
+	defer m.mu.Unlock()
+
+	src := m.connsIPv4
+	if isIPv6 {
+		src = m.connsIPv6
+	}
+	res := make(map[string]*VerifMuxedConn, len(src))
+	for k, c := range src {
+		res[k] = c
+	}
+
+	return res
+}
+
+// VerifMuxAddressMap returns a copy of the source-address bindings.
+func VerifMuxAddressMap(m *UDPMuxDefault) map[netip.AddrPort]*VerifMuxedConn {
+	m.addressMapMu.RLock()
+	defer m.addressMapMu.RUnlock()
+
+	res := make(map[netip.AddrPort]*VerifMuxedConn, len(m.addressMap))
+	for k, c := range m.addressMap {
+		res[k] = c
+	}
+
+	return res
+}
+
+// VerifMuxConnInfo returns the address list, the closed flag and the queued datagrams of a muxed connection.
+func VerifMuxConnInfo(c *VerifMuxedConn) (addresses []netip.AddrPort, closed bool, queued []VerifMuxQueued) {
+	c.mu.Lock()
+	defer c.mu.Unlock()
+
+	addresses = append(addresses, c.addresses...)
+	for pkt := c.bufTail; pkt != nil; pkt = pkt.next {
+		queued = append(queued, VerifMuxQueued{
+			Data: append([]byte{}, pkt.buf...), Src: pkt.sourceAddrPort, Addr: pkt.sourceAddr,
+		})
+	}
+
+	return addresses, c.closed, queued
+}
+
+func verifSharedOf(pc net.PacketConn) *sharedPacketConn {
+	switch h := pc.(type) {
+	case *sharedPacketConn:
+		return h
+	case *sharedAddrPortConn:
+		return h.sharedPacketConn
+	default:
+		return nil
+	}
+}
+
+// VerifMuxUnderlying returns the muxed connection behind a handle returned by UDPMuxDefault.GetConn.
+func VerifMuxUnderlying(pc net.PacketConn) *VerifMuxedConn {
+	h := verifSharedOf(pc)
+	if h == nil {
+		return nil
+	}
+	c, _ := h.underlying.(*udpMuxedConn)
+
+	return c
+}
+
+// VerifSharedInfo describes a reference-counted handle handed out by a UDP or TCP mux:
+// the shared reference count, whether this handle's own context is cancelled, and
+// whether the underlying per-ufrag connection is closed.
+func VerifSharedInfo(pc net.PacketConn) (refs int, cancelled, underlyingClosed, ok bool) {
+	h := verifSharedOf(pc)
+	if h == nil {
+		return 0, false, false, false
+	}
+	switch u := h.underlying.(type) {
+	case *udpMuxedConn:
+		underlyingClosed = u.isClosed()
+	case *tcpPacketConn:
+		select {
+		case <-u.closedChan:
+			underlyingClosed = true
+		default:
+		}
+	default:
+		return 0, false, false, false
+	}
+
+	return int(h.refs.Load()), h.ctx.Err() != nil, underlyingClosed, true
+}
